@@ -56,7 +56,7 @@ func genMux(seed uint64, n int, maxOps int, demux bool, emit func(interface{})) 
 		nops := r.rangeInt(3, maxOps)
 		var live []int // pids as addressed in the scenario (explicit or -k)
 		autoN := 0
-		explicit := []int{256, 257, 258, 4000, 32, 8189}
+		explicit := []int{256, 257, 258, 4000, 32, 8189, 0x1000}
 		churn := r.intn(4) == 0 // configuration-heavy history (version wrap)
 		bigOnce := s%4 == 0     // every fourth history carries payloads around the 16-bit PES_packet_length limit
 		bigLeft := 2
